@@ -30,7 +30,6 @@ import (
 	"math"
 	"os"
 	"path/filepath"
-	"sort"
 	"strconv"
 	"strings"
 	"syscall"
@@ -46,7 +45,6 @@ import (
 
 const (
 	c12Inf        = int64(math.MaxInt64)
-	c12NCPU       = 4
 	c12Period     = "100000" // kernel default cfs period printed as second field of cpu.max
 	c12MemMaxByte = int64(9223372036854771712)
 )
@@ -856,9 +854,52 @@ func c12ShowCase(k *c12Kind, c *c12Case) []string {
 
 type c12Block struct {
 	tree  c12Tree
+	ncpu  int
 	valid [][]int64
 	modes []string
 	size  int64
+}
+
+type c12Part struct {
+	name   string
+	ki     int
+	v2     bool
+	blocks []string // "tree" or "tree/ncpu"
+}
+
+// c12Plan lists the parts in execution order: small ones first, the big CPU-set blocks last, so that a time cap
+// (reported, never an alarm) always hits the same, largest block.
+func c12Plan(kinds []c12Kind, thorough bool) []c12Part {
+	var parts []c12Part
+	add := func(kname string, suffix string, blocks ...string) {
+		for ki := range kinds {
+			if kinds[ki].Name != kname {
+				continue
+			}
+			for _, v2 := range []bool{false, true} {
+				ver := "v1"
+				if v2 {
+					ver = "v2"
+				}
+				parts = append(parts, c12Part{name: "leveled-" + kname + "-" + ver + suffix, ki: ki, v2: v2, blocks: blocks})
+			}
+		}
+	}
+	if !thorough {
+		add("cfs_quota", "", "chain2", "chain1", "chain3", "fan2", "fan2g")
+		add("memory.min", "", "chain2", "chain1", "chain3", "fan2")
+		add("memory.low", "", "chain2", "fan2")
+		add("memory.high", "", "chain2", "fan2")
+		add("cpuset", "", "chain2/4", "chain1/4", "chain3/4", "fan2/3")
+		return parts
+	}
+	for _, kn := range []string{"cfs_quota", "memory.min", "memory.low", "memory.high"} {
+		add(kn, "", "chain2", "chain1", "chain3", "fan2", "fan2g", "fan2gg")
+	}
+	add("cpuset", "", "chain2/4", "chain1/4", "chain3/4", "fan2/4")
+	add("cpuset", "-chain3-5cpu", "chain3/5")
+	add("cpuset", "-fan2g", "fan2g/4")
+	return parts
 }
 
 func TestVerifC12Leveled(t *testing.T) {
@@ -874,6 +915,9 @@ func TestVerifC12Leveled(t *testing.T) {
 			defer os.RemoveAll(d)
 		}
 	}
+	// sysutil.Conf (cgroup root) and the cgroup version are package globals of the code under check: they are set
+	// once per part, before the workers start; every worker owns a directory prefix and an inotify instance, every
+	// case owns its executor and cache. bin/check additionally splits the range over processes (spec: shards).
 	kinds := c12AllKinds()
 	rigs := make([]*c12Rig, env.Workers)
 	for w := range rigs {
@@ -893,64 +937,34 @@ func TestVerifC12Leveled(t *testing.T) {
 		return
 	}
 
-	var cpus []int64
-	for m := int64(1); m < 1<<c12NCPU; m++ {
-		cpus = append(cpus, m)
-	}
-	type partSpec struct {
-		ki int
-		v2 bool
-	}
-	var parts []partSpec
-	for _, isSet := range []bool{false, true} { // the big CPU-set parts last
-		for _, v2 := range []bool{false, true} {
-			for ki := range kinds {
-				if kinds[ki].IsSet == isSet {
-					parts = append(parts, partSpec{ki, v2})
-				}
-			}
-		}
-	}
-	for _, p := range parts {
+	allModes := []string{"cold", "warm", "force"}
+	for _, p := range c12Plan(kinds, env.Thorough()) {
 		k := &kinds[p.ki]
 		helper.SetCgroupsV2(p.v2)
-		ver := "v1"
-		if p.v2 {
-			ver = "v2"
-		}
-		res := mc.NewResult("C12", "leveled-"+k.Name+"-"+ver, "faults")
-		allModes := []string{"cold", "warm", "force"}
-		var names []string
-		treeModes := map[string][]string{}
-		if k.IsSet {
-			names = []string{"chain1", "chain2", "chain3", "fan2"}
-			if env.Thorough() {
-				names = append(names, "fan2g")
-			}
-		} else {
-			names = []string{"chain1", "chain2", "chain3", "fan2", "fan2g"}
-			if env.Thorough() {
-				names = append(names, "fan2gg")
-			}
-		}
-		dom := k.Vals
-		if k.IsSet {
-			dom = cpus
-		}
+		res := mc.NewResult("C12", p.name, "faults")
 		var blocks []c12Block
 		var total int64
 		bounds := map[string]any{}
-		for _, nm := range names {
-			tr := c12Trees[nm]
-			modes := allModes
-			if m, ok := treeModes[nm]; ok {
-				modes = m
+		for _, spec := range p.blocks {
+			nm, ncpu := spec, 0
+			if i := strings.IndexByte(spec, '/'); i >= 0 {
+				nm = spec[:i]
+				ncpu, _ = strconv.Atoi(spec[i+1:])
 			}
-			b := c12Block{tree: tr, valid: c12Valid(&tr, k, dom), modes: modes}
-			b.size = int64(len(b.valid)) * int64(len(b.valid)) * int64(len(modes)) * int64(k.NTok)
+			tr := c12Trees[nm]
+			dom := k.Vals
+			if k.IsSet {
+				dom = nil
+				for m := int64(1); m < 1<<uint(ncpu); m++ {
+					dom = append(dom, m)
+				}
+			}
+			b := c12Block{tree: tr, ncpu: ncpu, valid: c12Valid(&tr, k, dom), modes: allModes}
+			b.size = int64(len(b.valid)) * int64(len(b.valid)) * int64(len(b.modes)) * int64(k.NTok)
 			blocks = append(blocks, b)
 			total += b.size
-			bounds[nm] = fmt.Sprintf("%d valid assignments -> %d (old,new) pairs x %d cache modes x %d unlimited spellings", len(b.valid), len(b.valid)*len(b.valid), len(modes), k.NTok)
+			bounds[spec] = fmt.Sprintf("%d hierarchy-valid assignments -> %d (old,new) pairs x %d cache modes x %d spellings of unlimited = %d cases",
+				len(b.valid), len(b.valid)*len(b.valid), len(b.modes), k.NTok, b.size)
 		}
 		ds := mc.NewDistinctSet()
 		done, complete := env.ParallelRangeL(res, total, func(l *mc.Local, i int64) {
@@ -976,14 +990,17 @@ func TestVerifC12Leveled(t *testing.T) {
 		res.Distinct = ds.Len()
 		res.Exhaustive = complete
 		if !complete {
-			res.Capped = fmt.Sprintf("time budget hit after %d of %d cases (blocks in order %v)", done, total, names)
+			res.Capped = fmt.Sprintf("time budget hit after %d of %d cases of this shard's share (blocks in order %v)", done, total, p.blocks)
 		}
-		sort.Strings(names)
 		res.Bounds = bounds
+		ver := "v1"
+		if p.v2 {
+			ver = "v2"
+		}
 		if k.IsSet {
-			res.Rule = fmt.Sprintf("cgroup %s %s: trees %v x every pair (old,new) of assignments of non-empty CPU sets over CPUs 0..%d with child subset of parent at both ends x cache {cold, warm = primed by a batch with the old values, force = force-update interval elapsed}; the real LeveledUpdateBatch is run and every file write is a judged crash point; non-trivial = at least two file writes", ver, k.Name, names, c12NCPU-1)
+			res.Rule = fmt.Sprintf("cgroup %s %s: blocks tree/#CPUs %v: every pair (old,new) of assignments of non-empty CPU sets with child subset of parent at both ends x cache {cold, warm = primed by a batch with the old values, force = force-update interval elapsed}; the real LeveledUpdateBatch runs with real updaters and every file write is a judged crash point; non-trivial = at least two file writes", ver, k.Name, p.blocks)
 		} else {
-			res.Rule = fmt.Sprintf("cgroup %s %s: trees %v x every pair (old,new) of assignments over %v (MaxInt64 = unlimited) with child <= parent at both ends x cache {cold, warm, force} x spelling of unlimited handed to the updater; the real LeveledUpdateBatch is run and every file write is a judged crash point; non-trivial = at least two file writes", ver, k.Name, names, k.Vals)
+			res.Rule = fmt.Sprintf("cgroup %s %s: trees %v: every pair (old,new) of assignments over %v (MaxInt64 = unlimited) with child <= parent at both ends x cache {cold, warm, force} x spelling of unlimited handed to the updater; the real LeveledUpdateBatch runs with real updaters and every file write is a judged crash point; non-trivial = at least two file writes", ver, k.Name, p.blocks, k.Vals)
 		}
 		res.Assumptions = []string{
 			"files start with the kernel's rendering of the old value; after every observed write the harness replaces the raw string by the kernel's read-back of the same value (cpu.max gets its period field, MaxInt64 reads back as max)",
